@@ -25,5 +25,11 @@ func (pass *ReplaceReference) processRef(_ *Visitor, _ *ast.Schema, def ast.Type
 		return def, nil
 	}
 
-	return ast.NewRef(pass.To.Package, pass.To.Object, ast.Trail(fmt.Sprintf("ReplaceReference[%s → %s]", def.Ref, pass.To))), nil
+	// only the target changes: nullability, default, hints and trail of the reference are kept
+	newRef := def.DeepCopy()
+	newRef.Ref.ReferredPkg = pass.To.Package
+	newRef.Ref.ReferredType = pass.To.Object
+	newRef.AddToPassesTrail(fmt.Sprintf("ReplaceReference[%s → %s]", def.Ref, pass.To))
+
+	return newRef, nil
 }
